@@ -1,9 +1,10 @@
 """C19 - internal containers behave as their abstract data types."""
 from runner import Stream
+import gen_consts
 
 ID = "C19"
 IMPORTS = ["CaresProps.C19"]
-LEAN_TARGETS = ["CaresModel", "CaresLemmas", "CaresProps", "driver_dsa"]
+LEAN_TARGETS = ["CaresProps.C19", "driver_dsa"]
 THEOREMS = [
     "Cares.C19.arr_insertAt_refines",
     "Cares.C19.arr_claimAt_refines",
@@ -11,6 +12,49 @@ THEOREMS = [
     "Cares.C19.arr_step_refines",
     "Cares.C19.arr_run_refines",
     "Cares.C19.arr_insert_never_stuck",
+    # ares_htable + typed wrappers
+    "Cares.C19.ht_consts_ok",
+    "Cares.C19.ht_size_arith_fits",
+    "Cares.C19.ht_empty",
+    "Cares.C19.ht_insert_refines",
+    "Cares.C19.ht_expand_preserves",
+    "Cares.C19.ht_expand_prealloc_suffices",
+    "Cares.C19.ht_remove_refines",
+    "Cares.C19.ht_get_refines",
+    "Cares.C19.ht_count_eq_keys",
+    "Cares.C19.ht_collisions_eq_sum",
+    "Cares.C19.ht_step_refines",
+    "Cares.C19.ht_run_refines_partial",
+    "Cares.C19.ht_reachable_inv",
+    "Cares.C19.ht_null_key_lost",
+    "Cares.C19.fnv_step_is_mul",
+    "Cares.C19.tolower_nonzero",
+    "Cares.C19.fnv1a_casecmp_respects_caseeq",
+    # ares_buf
+    "Cares.C19.buf_consts_ok",
+    "Cares.C19.buf_empty_rel",
+    "Cares.C19.buf_step_refines",
+    "Cares.C19.buf_run_refines",
+    "Cares.C19.buf_reachable_inv",
+    "Cares.C19.buf_append_queue",
+    "Cares.C19.buf_reclaim_preserves",
+    "Cares.C19.buf_tag_rollback_restores",
+    "Cares.C19.buf_backpatch_eq_overwrite",
+    "Cares.C19.buf_split_refines",
+    "Cares.C19.buf_setlen_unprotected",
+    # ares_slist
+    "Cares.C19.sl_consts_ok",
+    "Cares.C19.sl_empty_inv",
+    "Cares.C19.sl_insert_refines",
+    "Cares.C19.sl_insert_perm",
+    "Cares.C19.sl_remove_refines",
+    "Cares.C19.sl_find_first_equal",
+    "Cares.C19.sl_first_last",
+    "Cares.C19.sl_reinsert_restores",
+    "Cares.C19.sl_levels_sublist",
+    "Cares.C19.sl_step_refines",
+    "Cares.C19.sl_run_refines",
+    "Cares.C19.sl_reachable_inv",
 ]
 TRUSTED = [
     "Lean 4.33.0 kernel; axioms allowed: propext, Classical.choice, Quot.sound",
@@ -23,6 +67,7 @@ ASSUMPTIONS = [
     "allocation succeeds in this stream (failure schedules belong to C14)",
     "element destructors are not modelled",
 ]
+GENERATORS = [gen_consts.gen_dsa_consts]
 EXPLANATION = ("Refinement theorems (each container model refines the trivial list/map reference for every "
                "operation sequence) + step-by-step correspondence of the real containers with the model.")
 
@@ -139,8 +184,906 @@ def mon_arr(case, out):
     return bad
 
 
+
+# ------------------------------------------------------------------------------------------ hash tables
+HT_KINDS = ["szvp", "strvp", "asvp", "vpvp", "vpstr", "dict", "raw"]
+HT_STRKEY = {"strvp", "dict"}
+HT_STRVAL = {"vpstr", "dict"}
+HT_KEYS = {"asvp", "dict", "raw"}
+
+
+def _hex(bs):
+    return "".join("%02x" % b for b in bs) or "-"
+
+
+def _rand_word(rng, lo, hi):
+    n = rng.randint(lo, hi)
+    return bytes(rng.choice(b"abcXYZ09-_.") for _ in range(n))
+
+
+def _case_variant(rng, w):
+    return bytes((c ^ 0x20) if (65 <= (c & ~0x20) <= 90 and rng.random() < 0.5) else c for c in w)
+
+
+def gen_ht(rng, tier):
+    ncases = 260 if tier == "quick" else 12000
+    big = 70 if tier == "quick" else 420
+    cases = []
+    for _ in range(ncases):
+        style = rng.choice(["grow", "dup", "churn", "collide", "case", "threshold"])
+        if style == "collide":
+            kind = "raw"
+        elif style == "case":
+            kind = rng.choice(["strvp", "dict"])
+        else:
+            kind = rng.choice(HT_KINDS)
+        strkey, strval = kind in HT_STRKEY, kind in HT_STRVAL
+
+        def newval():
+            return _hex(_rand_word(rng, 1, 6)) if strval else str(rng.randint(1, 1 << 20))
+
+        # key universe
+        if style == "collide":
+            # identity hash: keys sharing the low bits share a bucket until the table has grown enough
+            bases = [rng.randint(0, 15) for _ in range(rng.randint(1, 3))]
+            uni = sorted({b + m * rng.choice([16, 32, 64, 128, 1024, 4096]) for b in bases for m in range(rng.randint(2, 14))})
+            uni = [str(k) for k in uni]
+        elif strkey:
+            n = {"dup": 4, "case": 6}.get(style, rng.randint(8, big))
+            words = list({_rand_word(rng, 0 if kind == "strvp" else 1, 8) for _ in range(n)})
+            if rng.random() < 0.3:
+                words.append(b"")
+            uni = [_hex(w) for w in words]
+        else:
+            n = {"dup": 4}.get(style, rng.randint(8, big))
+            top = (1 << 31) - 1 if kind == "asvp" else (1 << 32) - 1
+            uni = [str(k) for k in ({rng.randint(0, top) for _ in range(n)} | ({rng.randint(0, 40) for _ in range(n // 2)}))]
+        rng.shuffle(uni)
+
+        def pick():
+            k = rng.choice(uni)
+            if style == "case" or (strkey and rng.random() < 0.15):
+                k = _hex(_case_variant(rng, bytes.fromhex(k) if k != "-" else b""))
+            return k
+
+        ops = ["ht new 1 %s" % kind]
+        if style in ("grow", "collide"):
+            for i, k in enumerate(uni):
+                ops.append("ht put 1 %s %s" % (k, newval()))
+                r = rng.random()
+                if r < 0.25:
+                    ops.append("ht get 1 %s" % rng.choice(uni[:i + 1]))
+                elif r < 0.32:
+                    ops.append("ht count 1")
+                elif r < 0.40:
+                    ops.append("ht put 1 %s %s" % (rng.choice(uni[:i + 1]), newval()))
+                elif r < 0.46:
+                    ops.append("ht del 1 %s" % rng.choice(uni[:i + 1]))
+        elif style == "threshold":
+            # sit right at a growth threshold (75% of 16, 32, 64) and go back and forth across it
+            target = rng.choice([12, 12, 24, 48])
+            uni = uni + [str(10 ** 6 + i) if not strkey else _hex(b"k%d" % i) for i in range(max(0, target + 2 - len(uni)))]
+            live = []
+            for k in uni[:target]:
+                ops.append("ht put 1 %s %s" % (k, newval()))
+                live.append(k)
+            for _ in range(rng.randint(4, 30)):
+                r = rng.random()
+                if r < 0.45 and live:
+                    k = live.pop(rng.randrange(len(live)))
+                    ops.append("ht del 1 %s" % k)
+                elif r < 0.9:
+                    k = rng.choice(uni)
+                    ops.append("ht put 1 %s %s" % (k, newval()))
+                    if k not in live:
+                        live.append(k)
+                else:
+                    ops.append("ht count 1")
+        else:
+            for _ in range(rng.randint(5, big)):
+                r = rng.random()
+                if r < 0.45:
+                    ops.append("ht put 1 %s %s" % (pick(), newval()))
+                elif r < 0.65:
+                    ops.append("ht del 1 %s" % pick())
+                elif r < 0.70 and kind == "strvp":
+                    ops.append("ht claim 1 %s" % pick())
+                elif r < 0.92:
+                    ops.append("ht get 1 %s" % pick())
+                elif r < 0.97:
+                    ops.append("ht count 1")
+                else:
+                    ops.append("ht keys 1")
+        # final sweep: every key of the universe, the count, the key dump
+        for k in uni:
+            ops.append("ht get 1 %s" % k)
+        ops.append("ht count 1")
+        ops.append("ht keys 1")
+        if kind == "raw":
+            # identity hash: the model predicts every allocation (bucket array, llists pre-allocated from
+            # num_collisions, lazily created llists, nodes), so the number of allocation calls is compared too
+            ops = [o for op in ops for o in ([op, "alloc count"] if op.startswith("ht put") and rng.random() < 0.3 else [op])]
+            ops.append("alloc count")
+        cases.append(ops)
+    return cases
+
+
+def _canon(kind, k):
+    if kind in HT_STRKEY:
+        return bytes(c | 0x20 if 65 <= c <= 90 else c for c in (bytes.fromhex(k) if k != "-" else b""))
+    return int(k)
+
+
+def mon_ht(case, out):
+    """The property evaluated directly on the implementation: every live key maps to its latest value, removed
+    keys are gone, count = number of live keys (python dict as the trivial reference)."""
+    tabs = {}
+    bad = []
+    for line, o in zip(case, out):
+        t = line.split()
+        if t[0] == "alloc" and t[1] == "failnth":
+            return bad      # from here on the allocation-failure monitor judges the case
+        if t[0] != "ht":
+            continue
+        cmd, h = t[1], t[2]
+        exp = None
+        if cmd == "new":
+            tabs[h] = (t[3], {})
+            exp = "ok"
+        elif h not in tabs:
+            continue
+        else:
+            kind, ref = tabs[h]
+            nullkey = kind in ("vpvp", "vpstr") and len(t) > 3 and t[3] == "0"
+            if cmd == "put":
+                if kind == "dict" and t[3] == "-":
+                    exp = "err"
+                else:
+                    ref[_canon(kind, t[3])] = (t[3], t[4]); exp = "ok"
+            elif cmd == "get":
+                e = ref.get(_canon(kind, t[3])); exp = e[1] if e else "none"
+            elif cmd == "claim":
+                e = ref.get(_canon(kind, t[3])); exp = e[1] if e else "none"
+                if o == exp:
+                    ref.pop(_canon(kind, t[3]), None)
+            elif cmd == "del":
+                exp = "ok" if _canon(kind, t[3]) in ref else "none"
+                if o == exp:
+                    ref.pop(_canon(kind, t[3]), None)
+            elif cmd == "count":
+                exp = str(len(ref))
+            elif cmd == "keys":
+                if kind not in HT_KEYS:
+                    exp = "unsupported"
+                elif kind == "dict":
+                    exp = "[" + " ".join(_hex(b) for b in sorted(bytes.fromhex(s) for s, _ in ref.values())) + "]"
+                else:
+                    exp = "[" + " ".join(str(k) for k in sorted(ref)) + "]"
+            if exp is not None and o != exp and nullkey and cmd in ("get", "del") and o == "none":
+                # a NULL key was accepted by insert but can neither be found nor removed; keep monitoring the rest
+                if not any(s == "ht-nullkey" for s, _ in bad):
+                    bad.append(("ht-nullkey", "%s table: the NULL key was inserted (counted by num_keys) but %r "
+                                "answered %r instead of %r" % (kind, line, o, exp)))
+                continue
+        if exp is not None and o != exp:
+            bad.append(("ht-map", "after %r the hash table answered %r, the map reference %r" % (line, o, exp)))
+            break
+    return bad
+
+
+# ------------------------------------------------------------------------------------------ byte buffers
+WS = b"\r\t \v\f"
+LOWER = bytes(c | 0x20 if 65 <= c <= 90 else c for c in range(256))
+
+
+def spec_split(rem, delims, flags, maxs):
+    """Specification of ares_buf_split on the unread bytes: (sections, start of the last section or None)."""
+    keep, blank, nodup, ci, ltrim, rtrim = (flags & 1, flags & 2, flags & 4, flags & 8, flags & 16, flags & 32)
+    out, i, first, last = [], 0, True, None
+    while i < len(rem):
+        if first:
+            start = i
+        elif keep:
+            start = i; i += 1
+        else:
+            i += 1; start = i
+        last = start
+        if maxs and len(out) >= maxs - 1:
+            i = len(rem)
+        else:
+            while i < len(rem) and rem[i] not in delims:
+                i += 1
+        sec = rem[start:i]
+        if ltrim:
+            sec = sec.lstrip(WS + b"\n")
+        if rtrim:
+            sec = sec.rstrip(WS + b"\n")
+        if sec or blank:
+            dup = any((s.translate(LOWER) == sec.translate(LOWER)) if ci else s == sec for s in out)
+            if not (nodup and dup):
+                out.append(sec)
+        first = False
+    return out, last
+
+
+class BufRef:
+    """Trivial reference for one ares_buf_t: everything ever appended (`stream`), an absolute read position and
+    an absolute tag.  Reclaiming is invisible here; `base` (how much of the front the implementation has dropped)
+    is only *learned* from get-position answers and checked against the bound min(tag, pos)."""
+
+    def __init__(self, const=None):
+        self.const = const is not None
+        self.stream = bytearray(const or b"")
+        self.pos, self.tag = 0, None
+        self.base, self.base_known = 0, True
+        self.hidden = bytearray()      # known bytes physically behind data_len that a later set_length may expose
+        self.unknown = False           # a set_length exposed bytes this reference does not know
+        self.alloc = False             # has the buffer ever allocated?
+
+    def rem(self):
+        return bytes(self.stream[self.pos:])
+
+    def floor(self):
+        return self.pos if self.tag is None or self.tag > self.pos else self.tag
+
+    def _consume_prefix(self, n, empty_is_zero=True):
+        self.pos += n
+        return str(n)
+
+    def apply(self, t, out):
+        """t = tokens after the handle; out = what the implementation answered. Returns the expected answer or None."""
+        cmd, a = t[0], t[1:]
+        rem = self.rem()
+        if cmd in ("app", "be16", "be32"):
+            data = (bytes.fromhex(a[0]) if a[0] != "-" else b"") if cmd == "app" else \
+                int(a[0]).to_bytes(2 if cmd == "be16" else 4, "big")
+            if not data:
+                return "ok"
+            if self.const:
+                return "err"
+            if out == "ok":
+                if self.floor() > self.base:
+                    self.base_known = False
+                if len(data) <= len(self.hidden):
+                    del self.hidden[:len(data)]      # overwritten in place
+                else:
+                    self.hidden = bytearray()        # the buffer may have been compacted or reallocated
+                self.stream += data
+                self.alloc = True
+            return "ok"
+        if cmd == "fetch":
+            n = int(a[0])
+            if n == 0 or n > len(rem):
+                return "err"
+            self.pos += n
+            return _hex(rem[:n])
+        if cmd in ("fbe16", "fbe32"):
+            n = 2 if cmd == "fbe16" else 4
+            if len(rem) < n:
+                return "err"
+            self.pos += n
+            return str(int.from_bytes(rem[:n], "big"))
+        if cmd == "consume":
+            n = int(a[0])
+            if n > len(rem):
+                return "err"
+            self.pos += n
+            return "ok"
+        if cmd == "tag":
+            self.tag = self.pos
+            return "ok"
+        if cmd == "rollback":
+            if self.tag is None:
+                return "err"
+            self.pos, self.tag = self.tag, None
+            return "ok"
+        if cmd == "tagclear":
+            if self.tag is None:
+                return "err"
+            self.tag = None
+            return "ok"
+        if cmd == "tagfetch":
+            if self.tag is None:
+                return "err"
+            if self.tag > self.pos:
+                return None
+            if not self.alloc and not self.const:
+                return "err"
+            return _hex(bytes(self.stream[self.tag:self.pos]))
+        if cmd == "taglen":
+            if self.tag is None:
+                return "0"
+            return str(self.pos - self.tag) if self.tag <= self.pos else None
+        if cmd == "reclaim":
+            if not self.const and self.alloc:
+                if self.floor() > self.base:
+                    self.hidden = bytearray()
+                self.base = self.floor()
+                self.base_known = True
+            return "ok"
+        if cmd == "len":
+            return str(len(rem))
+        if cmd == "peek":
+            return _hex(rem)
+        if cmd == "getpos":
+            if out.isdigit():
+                b = self.pos - int(out)
+                # the front may only be dropped up to min(tag, pos), never given back
+                if not (self.base <= b <= self.floor()) and not (self.base_known and b == self.base):
+                    return "a position between %d and %d" % (self.pos - self.floor(), self.pos - self.base)
+                if self.base_known and b != self.base:
+                    return str(self.pos - self.base)
+                self.base, self.base_known = b, True
+                return out
+            return str(self.pos - self.base)
+        if cmd == "setpos":
+            if not self.base_known:
+                return None
+            n = int(a[0])
+            if n > len(self.stream) - self.base:
+                return "err"
+            self.pos = self.base + n
+            return "ok"
+        if cmd == "setlen":
+            n = int(a[0])
+            if self.const:
+                return "err"
+            if out != "ok":
+                return None if n >= len(rem) else "ok"   # growing is bounded by the allocation, which is not modelled here
+            if n <= len(rem):
+                cut = self.stream[self.pos + n:]
+                self.hidden = bytearray(cut) + self.hidden
+                del self.stream[self.pos + n:]
+            else:
+                k = n - len(rem)
+                if k > len(self.hidden):
+                    self.stream += bytes(k)        # unknown bytes: stop judging this buffer
+                    self.unknown = True
+                else:
+                    self.stream += self.hidden[:k]
+                    del self.hidden[:k]
+            return "ok"
+        if cmd in ("ws", "nonws", "line", "until", "charset"):
+            if cmd == "ws":
+                w = WS + (b"\n" if a[0] != "0" else b"")
+                n = len(rem) - len(rem.lstrip(w))
+            elif cmd == "nonws":
+                n = 0
+                while n < len(rem) and rem[n] not in WS + b"\n":
+                    n += 1
+            elif cmd == "line":
+                n = rem.find(b"\n")
+                n = len(rem) if n < 0 else (n + 1 if a[0] != "0" else n)
+            elif cmd == "until":
+                cs = bytes.fromhex(a[0]) if a[0] != "-" else b""
+                n = 0
+                if cs:
+                    while n < len(rem) and rem[n] not in cs:
+                        n += 1
+                    if a[1] != "0" and n == len(rem) and rem:
+                        return "max"
+            else:
+                cs = bytes.fromhex(a[0]) if a[0] != "-" else b""
+                n = 0
+                while cs and n < len(rem) and rem[n] in cs:
+                    n += 1
+            self.pos += n
+            return str(n)
+        if cmd == "split":
+            delims = bytes.fromhex(a[0]) if a[0] != "-" else b""
+            if not delims:
+                return "err"
+            secs, last = spec_split(rem, delims, int(a[1]), int(a[2]))
+            if rem:
+                self.tag = self.pos + last
+                self.pos = len(self.stream)
+            return "[" + " ".join(_hex(s) for s in secs) + "]"
+        if cmd in ("finishbin", "finishstr"):
+            if self.const:
+                return "err"
+            return _hex(bytes(self.stream[self.floor():]))
+        return None
+
+
+BUF_TEXT = b"ab, \tXy\n;,Z q\r\n"
+
+
+def gen_buf(rng, tier):
+    ncases = 300 if tier == "quick" else 14000
+    maxops = 60 if tier == "quick" else 300
+    cases = []
+    for _ in range(ncases):
+        style = rng.choice(["queue", "tags", "stream", "parse", "split", "backpatch", "positions", "const"])
+        const = style == "const" or (style in ("parse", "split") and rng.random() < 0.5)
+        ops = []
+
+        def text(lo, hi):
+            n = rng.randint(lo, hi)
+            if style in ("parse", "split"):
+                return bytes(rng.choice(BUF_TEXT) for _ in range(n))
+            return bytes(rng.randrange(256) for _ in range(n))
+
+        if const:
+            data = text(1, 80)
+            ref = BufRef(const=data)
+            ops.append("buf const 1 %s" % _hex(data))
+        else:
+            ref = BufRef()
+            ops.append("buf new 1")
+
+        def emit(s):
+            ops.append("buf 1 ".replace("buf 1 ", "buf %s 1 " % s.split()[0]) + " ".join(s.split()[1:]) if False else
+                       "buf %s 1%s" % (s.split()[0], "".join(" " + x for x in s.split()[1:])))
+            ref.apply(s.split(), "ok" if s.split()[0] in ("app", "be16", "be32", "setlen") and not ref.const else "")
+
+        n = rng.randint(3, maxops)
+        for _ in range(n):
+            r = rng.random()
+            rem = len(ref.rem())
+            if style == "split" and r < 0.25:
+                delims = bytes(rng.sample(list(b",; \n\tq"), rng.randint(1, 3)))
+                fl = rng.choice([0, 1, 2, 3, 16, 18, 32, 48, 50, 6, 14, 63, rng.randrange(64)])
+                mx = rng.choice([0, 0, 0, 1, 2, 3, 5])
+                if fl & 6 == 6 and not fl & 8 and \
+                        sum(1 for x in spec_split(ref.rem(), delims, fl & ~4, mx)[0] if not x) >= 2:
+                    fl |= 8     # two blank sections + NO_DUPLICATES is finding F31-C19 (memcmp(NULL, .., 0)); see corpus
+                emit("split %s %d %d" % (_hex(delims), fl, mx))
+                continue
+            if style == "backpatch" and not ref.const and rem >= 4 and r < 0.3 and (ref.tag is None or ref.tag <= ref.pos):
+                # the length-prefix idiom of ares_dns_write.c: shorten, overwrite in place, restore the length
+                p = rng.randint(0, rem - 2)
+                k = rng.randint(1, min(4, rem - p))
+                emit("len")
+                emit("setlen %d" % p)
+                emit("app %s" % _hex(bytes(rng.randrange(256) for _ in range(k))))
+                emit("setlen %d" % rem)
+                emit("peek")
+                continue
+            if style == "positions" and r < 0.35:
+                emit("getpos")
+                top = len(ref.stream) - ref.base
+                emit("setpos %d" % rng.randint(0, top + (1 if rng.random() < 0.15 else 0)))
+                emit("peek")
+                continue
+            if r < 0.30 and not ref.const:
+                big = style == "stream" and rng.random() < 0.3
+                c = rng.random()
+                if c < 0.75:
+                    emit("app %s" % _hex(text(0 if rng.random() < 0.05 else 1, 300 if big else 24)))
+                elif c < 0.88:
+                    emit("be16 %d" % rng.randrange(1 << 16))
+                else:
+                    emit("be32 %d" % rng.randrange(1 << 32))
+            elif r < 0.30:
+                emit("app %s" % _hex(text(1, 4)))         # const buffer: must be refused
+            elif r < 0.48:
+                c = rng.random()
+                k = rng.randint(0, rem + 1) if rng.random() < 0.2 else rng.randint(0, max(rem, 1))
+                if c < 0.5:
+                    emit("fetch %d" % k)
+                elif c < 0.8:
+                    emit("consume %d" % k)
+                elif c < 0.9:
+                    emit("fbe16")
+                else:
+                    emit("fbe32")
+            elif r < 0.62:
+                c = rng.random()
+                if style in ("tags", "stream", "queue") or c < 0.5:
+                    emit(rng.choice(["tag", "tag", "rollback", "tagclear", "tagfetch", "taglen"]))
+                else:
+                    emit("len")
+            elif r < 0.70:
+                emit("reclaim")
+            elif r < 0.80 and style == "parse":
+                c = rng.random()
+                if c < 0.25:
+                    emit("ws %d" % rng.randint(0, 1))
+                elif c < 0.45:
+                    emit("nonws")
+                elif c < 0.65:
+                    emit("line %d" % rng.randint(0, 1))
+                elif c < 0.85:
+                    emit("until %s %d" % (_hex(bytes(rng.sample(list(b",;\n q"), rng.randint(0, 3)))), rng.randint(0, 1)))
+                else:
+                    emit("charset %s" % _hex(bytes(rng.sample(list(b"ab, \t"), rng.randint(0, 4)))))
+            elif r < 0.86:
+                emit(rng.choice(["len", "peek", "getpos"]))
+            elif r < 0.90 and not ref.const and (ref.tag is None or ref.tag <= ref.pos) and rem > 0:
+                emit("setlen %d" % rng.randint(0, rem))     # truncate
+            else:
+                emit(rng.choice(["len", "peek", "taglen"]))
+        ops.append("buf len 1")
+        ops.append("buf peek 1")
+        if rng.random() < 0.6:
+            ops.append("buf %s 1" % rng.choice(["finishbin", "finishstr"]))
+        cases.append(ops)
+    return cases
+
+
+def mon_buf(case, out):
+    """The byte-queue property evaluated directly on the implementation's answers (BufRef is the trivial reference)."""
+    refs = {}
+    for line, o in zip(case, out):
+        t = line.split()
+        if t[0] == "alloc" and t[1] == "failnth":
+            return []
+        if t[0] != "buf":
+            continue
+        cmd, h = t[1], t[2]
+        if cmd == "new":
+            refs[h] = BufRef(); exp = "ok"
+        elif cmd == "const":
+            data = bytes.fromhex(t[3]) if t[3] != "-" else b""
+            if data:
+                refs[h] = BufRef(const=data); exp = "ok"
+            else:
+                refs.pop(h, None); exp = "none"
+        elif h not in refs:
+            continue
+        else:
+            exp = refs[h].apply([cmd] + t[3:], o)
+            if refs[h].unknown or (cmd in ("finishbin", "finishstr") and o != "err"):
+                refs.pop(h)
+                if cmd == "setlen":
+                    exp = None
+        if exp is not None and o != exp:
+            return [("buf-queue", "after %r the buffer answered %r, the byte-queue reference %r" % (line, o, exp))]
+    return []
+
+
+
+# ------------------------------------------------------------------------------------------ skip lists
+import bisect
+
+
+class SlRef:
+    """Sorted-list specification: a node goes in front of the first node whose key is not smaller."""
+
+    def __init__(self):
+        self.items = []          # [key, id] in order
+
+    def keys(self):
+        return [k for k, _ in self.items]
+
+    def insert(self, n, k):
+        self.items.insert(bisect.bisect_left(self.keys(), k), [k, n])
+
+    def index(self, n):
+        for i, (_, x) in enumerate(self.items):
+            if x == n:
+                return i
+        return None
+
+    def dump(self, rev=False):
+        it = reversed(self.items) if rev else self.items
+        return "[" + " ".join("%d:%d" % (n, k) for k, n in it) + "]"
+
+
+def gen_sl(rng, tier):
+    ncases = 260 if tier == "quick" else 12000
+    maxops = 70 if tier == "quick" else 400
+    cases = []
+    for _ in range(ncases):
+        style = rng.choice(["dups", "asc", "desc", "random", "timers", "random"])
+        ops = []
+        pat = rng.choice([None, None, "ff", "00", "55", "0f", "ffff01", "%02x%02x" % (rng.randrange(256), rng.randrange(256))])
+        if pat:
+            ops.append("sl rand %s" % pat)
+        nlists = 1 if rng.random() < 0.8 else 2
+        for h in range(1, nlists + 1):
+            ops.append("sl new %d" % h)
+        live = {}                 # node id -> list
+        refs = {h: SlRef() for h in range(1, nlists + 1)}
+        nextid = [1]
+        clock = [100]
+
+        def newkey():
+            if style == "dups":
+                return rng.randint(1, 4)
+            if style == "asc" or style == "timers":
+                clock[0] += rng.randint(0, 3)
+                return clock[0]
+            if style == "desc":
+                clock[0] -= rng.randint(0, 3)
+                return max(clock[0], 0)
+            return rng.randint(0, 60) if rng.random() < 0.7 else rng.randint(0, 1 << 30)
+
+        n = rng.randint(3, maxops)
+        for _ in range(n):
+            r = rng.random()
+            h = rng.randint(1, nlists)
+            ref = refs[h]
+            if (r < 0.40 or not live) and nextid[0] < 500:
+                nid, k = nextid[0], newkey()
+                nextid[0] += 1
+                ops.append("sl ins %d %d %d" % (h, nid, k))
+                ref.insert(nid, k)
+                live[nid] = h
+            elif r < 0.55:
+                nid = rng.choice(list(live))
+                if style == "timers" and refs[live[nid]].items and rng.random() < 0.7:
+                    nid = refs[live[nid]].items[0][1]        # expire the earliest
+                ops.append("sl rm %d" % nid)
+                rf = refs[live.pop(nid)]
+                del rf.items[rf.index(nid)]
+            elif r < 0.70:
+                nid = rng.choice(list(live))
+                k = newkey()
+                ops.append("sl setkey %d %d" % (nid, k))
+                ops.append("sl reinsert %d" % nid)
+                rf = refs[live[nid]]
+                del rf.items[rf.index(nid)]
+                rf.insert(nid, k)
+            elif r < 0.82:
+                ks = ref.keys()
+                k = rng.choice(ks) if ks and rng.random() < 0.7 else newkey()
+                ops.append("sl find %d %d" % (h, k))
+            elif r < 0.88:
+                ops.append("sl %s %d" % (rng.choice(["first", "last", "len"]), h))
+            elif r < 0.93 and live:
+                ops.append("sl %s %d" % (rng.choice(["next", "prev"]), rng.choice(list(live))))
+            elif r < 0.97:
+                ops.append("sl dumpf %d" % h)
+            else:
+                ops.append("sl dumpb %d" % h)
+        for h in range(1, nlists + 1):
+            ops += ["sl dumpf %d" % h, "sl dumpb %d" % h, "sl len %d" % h, "sl first %d" % h, "sl last %d" % h]
+        cases.append(ops)
+    return cases
+
+
+def mon_sl(case, out):
+    """The ordered-list property evaluated directly on the implementation's answers."""
+    refs, live = {}, {}
+    for line, o in zip(case, out):
+        t = line.split()
+        if t[0] != "sl":
+            continue
+        cmd = t[1]
+        exp = None
+        if cmd == "rand":
+            exp = "ok"
+        elif cmd == "new":
+            refs[t[2]] = SlRef(); exp = "ok"
+        elif cmd in ("rm", "setkey", "reinsert", "next", "prev"):
+            nid = int(t[2])
+            if nid not in live:
+                exp = "bad-handle"
+            else:
+                rf = refs[live[nid]]
+                i = rf.index(nid)
+                if cmd == "rm":
+                    del rf.items[i]; del live[nid]; exp = str(nid)
+                elif cmd == "setkey":
+                    rf.items[i][0] = int(t[3]); exp = "ok"
+                elif cmd == "reinsert":
+                    k = rf.items[i][0]
+                    del rf.items[i]
+                    rf.insert(nid, k); exp = "ok"
+                elif cmd == "next":
+                    exp = str(rf.items[i + 1][1]) if i + 1 < len(rf.items) else "none"
+                else:
+                    exp = str(rf.items[i - 1][1]) if i > 0 else "none"
+        elif t[2] in refs:
+            rf = refs[t[2]]
+            if cmd == "ins":
+                rf.insert(int(t[3]), int(t[4])); live[int(t[3])] = t[2]; exp = "ok"
+            elif cmd == "find":
+                k = int(t[3])
+                i = bisect.bisect_left(rf.keys(), k)
+                exp = str(rf.items[i][1]) if i < len(rf.items) and rf.items[i][0] == k else "none"
+            elif cmd == "first":
+                exp = str(rf.items[0][1]) if rf.items else "none"
+            elif cmd == "last":
+                exp = str(rf.items[-1][1]) if rf.items else "none"
+            elif cmd == "len":
+                exp = str(len(rf.items))
+            elif cmd == "dumpf":
+                exp = rf.dump()
+            elif cmd == "dumpb":
+                exp = rf.dump(rev=True)
+        if exp is not None and o != exp:
+            return [("sl-order", "after %r the skip list answered %r, the sorted-list reference %r" % (line, o, exp))]
+    return []
+
+
+
+# ------------------------------------------------------------------------------------------ linked lists
+import os
+import re
+
+
+def _ll_fixed():
+    """what the model says ARES__LLIST_INSERT_BEFORE does on the tree under check (see CaresModel/Dsa/LList.lean)"""
+    p = os.path.join(os.path.dirname(os.path.abspath(__file__)), "..", "..", "lean", "CaresModel", "Dsa", "LList.lean")
+    m = re.search(r"def pinnedLinkPrev : Bool := (true|false)", open(p).read())
+    return bool(m) and m.group(1) == "true"
+
+
+class LlRef:
+    """Lists with node identity: a dict of python lists."""
+
+    def __init__(self):
+        self.lists = {}
+        self.where = {}
+
+    def apply(self, t):
+        """t = tokens after `ll`; returns (expected answer, op was an insert in the middle)"""
+        cmd, a = t[0], [int(x) for x in t[1:]]
+        L, W = self.lists, self.where
+        if cmd in ("insbefore", "insafter", "claim", "destroy", "mvfirst", "mvlast", "next", "prev", "parent"):
+            n = a[0]
+            if n not in W:
+                return "bad-handle", False
+            l = L[W[n]]
+            i = l.index(n)
+            if cmd in ("insbefore", "insafter"):
+                b = a[1]
+                if b < 1 or b in W:
+                    return "bad-handle", False
+                pos = i if cmd == "insbefore" else i + 1
+                middle = 0 < pos < len(l)
+                l.insert(pos, b)
+                W[b] = W[n]
+                return "ok", middle
+            if cmd in ("claim", "destroy"):
+                l.pop(i); del W[n]
+                return (str(n) if cmd == "claim" else "ok"), False
+            if cmd in ("mvfirst", "mvlast"):
+                if a[1] not in L:
+                    return "bad-handle", False
+                l.pop(i)
+                if cmd == "mvfirst":
+                    L[a[1]].insert(0, n)
+                else:
+                    L[a[1]].append(n)
+                W[n] = a[1]
+                return "ok", False
+            if cmd == "next":
+                return (str(l[i + 1]) if i + 1 < len(l) else "none"), False
+            if cmd == "prev":
+                return (str(l[i - 1]) if i > 0 else "none"), False
+            return str(W[n]), False
+        lid = a[0]
+        if cmd == "new":
+            if lid in L:
+                return "bad-op", False
+            L[lid] = []
+            return "ok", False
+        if lid not in L:
+            return "bad-handle", False
+        l = L[lid]
+        if cmd in ("insfirst", "inslast"):
+            b = a[1]
+            if b < 1 or b in W:
+                return "bad-handle", False
+            if cmd == "insfirst":
+                l.insert(0, b)
+            else:
+                l.append(b)
+            W[b] = lid
+            return "ok", False
+        if cmd == "idx":
+            return (str(l[a[1]]) if a[1] < len(l) else "none"), False
+        if cmd == "first":
+            return (str(l[0]) if l else "none"), False
+        if cmd == "last":
+            return (str(l[-1]) if l else "none"), False
+        if cmd == "len":
+            return str(len(l)), False
+        if cmd == "dumpf":
+            return "[" + " ".join(map(str, l)) + "]", False
+        if cmd == "dumpb":
+            return "[" + " ".join(map(str, reversed(l))) + "]", False
+        return None, False
+
+
+def gen_ll(rng, tier):
+    ncases = 260 if tier == "quick" else 12000
+    maxops = 60 if tier == "quick" else 300
+    fixed = _ll_fixed()
+    cases = []
+    for _ in range(ncases):
+        style = rng.choice(["basic", "moves", "moves", "middle", "queue"])
+        nlists = 1 if style in ("basic", "queue") and rng.random() < 0.7 else rng.randint(2, 3)
+        ref = LlRef()
+        ops = []
+        frozen = [False]      # pinned tree: after an insert in the middle only look, do not touch (see F32-C19)
+
+        def emit(s):
+            exp, middle = ref.apply(s.split())
+            ops.append("ll " + s)
+            if middle and not fixed:
+                frozen[0] = True
+
+        for h in range(1, nlists + 1):
+            emit("new %d" % h)
+        nextid = [1]
+
+        def fresh():
+            nextid[0] += 1
+            return nextid[0] - 1
+
+        def observe():
+            h = rng.randint(1, nlists)
+            c = rng.random()
+            if c < 0.3:
+                emit("dumpf %d" % h)
+            elif c < 0.5:
+                emit("dumpb %d" % h)
+            elif c < 0.65:
+                emit("idx %d %d" % (h, rng.randint(0, len(ref.lists[h]) + 1)))
+            elif c < 0.75:
+                emit("%s %d" % (rng.choice(["len", "first", "last"]), h))
+            elif ref.where:
+                emit("%s %d" % (rng.choice(["next", "prev", "parent"]), rng.choice(list(ref.where))))
+
+        for _ in range(rng.randint(3, maxops)):
+            r = rng.random()
+            h = rng.randint(1, nlists)
+            live = list(ref.where)
+            if frozen[0] or r < 0.2:
+                observe()
+            elif r < 0.45 or not live:
+                if style == "queue":
+                    emit("inslast %d %d" % (h, fresh()))
+                else:
+                    emit("%s %d %d" % (rng.choice(["insfirst", "inslast"]), h, fresh()))
+            elif r < 0.60:
+                n = rng.choice(live)
+                if style == "queue" and ref.lists[ref.where[n]]:
+                    n = ref.lists[ref.where[n]][0]
+                emit("%s %d" % (rng.choice(["claim", "destroy"]), n))
+            elif r < 0.80 and (style == "moves" or rng.random() < 0.3):
+                emit("%s %d %d" % (rng.choice(["mvfirst", "mvlast"]), rng.choice(live), rng.randint(1, nlists)))
+            elif r < 0.95:
+                at = rng.choice(live)
+                l = ref.lists[ref.where[at]]
+                if style != "middle":
+                    # only the two forms that are plain head / tail insertion
+                    if rng.random() < 0.5:
+                        emit("insbefore %d %d" % (l[0], fresh()))
+                    else:
+                        emit("insafter %d %d" % (l[-1], fresh()))
+                else:
+                    emit("%s %d %d" % (rng.choice(["insbefore", "insafter"]), at, fresh()))
+            else:
+                emit("claim %d" % (nextid[0] + 7))       # not a live node
+        for h in range(1, nlists + 1):
+            ops += ["ll dumpf %d" % h, "ll dumpb %d" % h, "ll len %d" % h]
+        cases.append(ops)
+    return cases
+
+
+def mon_ll(case, out):
+    """Order with node identity, evaluated directly on the implementation: forward and backward iteration, indexing,
+    neighbours and the counter must all describe the same sequence as the list reference."""
+    ref = LlRef()
+    seen_middle = False
+    for line, o in zip(case, out):
+        t = line.split()
+        if t[0] == "alloc" and t[1] == "failnth":
+            return []
+        if t[0] != "ll":
+            continue
+        exp, middle = ref.apply(t[1:])
+        seen_middle = seen_middle or middle
+        if exp is not None and o != exp:
+            if seen_middle:
+                return [("ll-insert-before-link", "after an insert_before/insert_after in the middle of a list, %r answered %r, "
+                         "the list reference %r" % (line, o, exp))]
+            return [("ll-order", "after %r the linked list answered %r, the list reference %r" % (line, o, exp))]
+    return []
+
+
+
 STREAMS = [
     Stream("arr", "h_dsa", "driver_dsa", gen_arr, monitor=mon_arr),
+    Stream("ht", "h_dsa", "driver_dsa", gen_ht, monitor=mon_ht),
+    Stream("buf", "h_dsa", "driver_dsa", gen_buf, monitor=mon_buf),
+    Stream("sl", "h_dsa", "driver_dsa", gen_sl, monitor=mon_sl),
+    Stream("ll", "h_dsa", "driver_dsa", gen_ll, monitor=mon_ll),
 ]
 
 LEVEL_TEXT = ("Proof: Lean 4 refinement theorems, for every operation sequence, that the model of each container "
